@@ -43,3 +43,11 @@ Example C20_nonvacuous :
                                    o_regex := Some [116;114;117;101]%N; o_pagination := true |}) [1;2;3];
        pg_fuel_out := false |}.
 Proof. exact pg_nonvacuous. Qed.
+
+(* the any-server hypotheses are met by a server that is not the documented one *)
+Example C20_any_server_nonvacuous :
+  ((forall q, r_page (odd_server q) = q_page q) /\ (forall q, r_count (odd_server q) <= 5)) /\
+  option_map (fun p => (fst p, map q_page (snd p)))
+    (list_pages odd_server 6 {| f_name := None; f_regex := None |} 2)
+  = Some ([1; 1; 2; 2], [1; 2; 3]).
+Proof. exact (conj odd_server_hyps odd_server_run). Qed.
